@@ -1,12 +1,28 @@
 (* C02 — Segment metadata inheritance never changes what is read.
-   Statements only; proofs in Proofs/SegStateProofs.v (grown over time).
-   FULL STATEMENT (see DESIGN.md section 7 C02):
-     inherit_refines : expand ts = Ok c -> sm_run ts = Ok (abs c)
-     explicit_fixpoint, forbidden_rejected. *)
+   Statements only; proofs in Proofs/SegStateProofs.v and Proofs/SegStateInherit.v.
+
+   The mechanism model is Model/SegState.v (replace-at-index through an index
+   map built ONCE per segment from the copied list; global previous-object map
+   updated only after a segment; copy when has_data flips; shared list for
+   metadata-less segments; index cache).  The specification
+   ([spec_fold_entries], Proofs/SegStateInherit.v) looks a listed object up BY
+   PATH IN THE CURRENT LIST.  [explicit_entries objs] is the fully explicit
+   encoding of a segment's object list (every object restated with a full
+   index or "no data"; used with the new-object-list flag set).
+
+   State invariants (each established and re-established by the machine, see
+   [state_invariants_preserved] and [segment_objects_paths_unique]):
+     prev_keys_ok prev  : the global map is keyed by the path of the stored object
+     prev_wf prev       : every stored object carries a definable index or has
+                          only ever been declared "no data"
+     base_tracked b prev: every object of the previous segment's list is the
+                          global map's object for its path
+     NoDup (map so_path objs) : a segment's list has no duplicate path. *)
 From Coq Require Import List ZArith.
 Import ListNotations.
 From NpTdms Require Import Base.Bytes Base.Res Model.Tokens Model.SegState Model.Layout Model.Reader
-     Proofs.SegStateProofs.
+     Proofs.SegStateProofs Proofs.SegStateInherit.
+Local Open Scope Z_scope.
 
 (* the path -> position index cache never returns a stale or foreign index:
    whatever the history of lookups, a hit equals the fresh computation *)
@@ -15,4 +31,205 @@ Theorem index_cache_transparent : forall c objs,
     fst (get_index c objs) = fresh_index (map so_path objs) /\ cache_ok (snd (get_index c objs)).
 Proof. exact get_index_fresh. Qed.
 
+(* ---- T1: the stale positional index map is harmless ------------------------ *)
+
+(* inherited list: replace-at-index through the map computed once from [base]
+   equals update-by-path in the evolving list *)
+Theorem positional_update_is_update_by_path : forall base prev_objs es,
+    prev_keys_ok prev_objs ->
+    NoDup (map so_path base) ->
+    NoDup (map e_path es) ->
+    fold_entries (Some base) prev_objs base es = spec_fold_entries prev_objs base es.
+Proof. exact SegStateInherit.positional_update_is_update_by_path. Qed.
+
+(* new object list: the mechanism never looks into the evolving list (it is
+   the machine over an empty copied list), so it equals update-by-path exactly
+   when no listed path repeats *)
+Theorem new_list_update_is_update_by_path : forall prev_objs es,
+    prev_keys_ok prev_objs ->
+    NoDup (map e_path es) ->
+    fold_entries None prev_objs [] es = spec_fold_entries prev_objs [] es.
+Proof. exact SegStateInherit.new_list_update_is_update_by_path0. Qed.
+
+(* the paths of the result, exactly and without any uniqueness assumption:
+   the copied list's paths in place, then the listed paths not in it *)
+Theorem segment_objects_paths : forall base prev_objs es r,
+    prev_keys_ok prev_objs ->
+    fold_entries (Some base) prev_objs base es = Ok r ->
+    map so_path r = map so_path base ++ appended_paths base es.
+Proof. exact SegStateInherit.fold_entries_paths. Qed.
+
+Theorem segment_objects_paths_new_list : forall prev_objs es r,
+    prev_keys_ok prev_objs ->
+    fold_entries None prev_objs [] es = Ok r ->
+    map so_path r = map e_path es.
+Proof. exact SegStateInherit.fold_entries_paths_new_list. Qed.
+
+(* the no-duplicate invariant is re-established as soon as no listed path
+   outside the copied list repeats *)
+Theorem segment_objects_paths_unique : forall base prev_objs es r,
+    prev_keys_ok prev_objs ->
+    NoDup (map so_path base) ->
+    NoDup (appended_paths base es) ->
+    fold_entries (Some base) prev_objs base es = Ok r ->
+    NoDup (map so_path r).
+Proof. exact SegStateInherit.fold_entries_nodup. Qed.
+
+Theorem segment_objects_paths_unique_new_list : forall prev_objs es r,
+    prev_keys_ok prev_objs ->
+    NoDup (map e_path es) ->
+    fold_entries None prev_objs [] es = Ok r ->
+    NoDup (map so_path r).
+Proof. exact SegStateInherit.fold_entries_nodup_new_list. Qed.
+
+(* ---- T2: the fully explicit encoding gives the same objects ----------------- *)
+
+Theorem explicit_reencoding_same_objects : forall prev_objs objs,
+    prev_keys_ok prev_objs ->
+    Forall canonical objs ->
+    Forall (nodata_ok prev_objs) objs ->
+    fold_entries None prev_objs [] (explicit_entries objs) = Ok objs.
+Proof. exact SegStateInherit.explicit_reencoding_same_objects. Qed.
+
+(* ... also when read through the by-path specification *)
+Theorem explicit_reencoding_same_objects_spec : forall prev_objs objs,
+    prev_keys_ok prev_objs ->
+    Forall canonical objs ->
+    Forall (nodata_ok prev_objs) objs ->
+    NoDup (map so_path objs) ->
+    spec_fold_entries prev_objs [] (explicit_entries objs) = Ok objs.
+Proof. exact SegStateInherit.explicit_reencoding_same_objects_spec. Qed.
+
+(* canonicity is established by the machine and kept by it *)
+Theorem new_object_canonical : forall p i o, new_object p i = Ok o -> canonical o.
+Proof. exact SegStateInherit.new_object_canonical. Qed.
+
+Theorem update_existing_canonical : forall o i o',
+    update_existing o i = Ok o' -> canonical o ->
+    (i = IMatchPrev -> so_has_data o = false -> indexed o) ->
+    canonical o'.
+Proof. exact SegStateInherit.update_existing_canonical. Qed.
+
+Theorem reuse_previous_canonical : forall po i o',
+    reuse_previous po i = Ok o' -> canonical po ->
+    (i = IMatchPrev -> so_has_data po = false -> indexed po) ->
+    canonical o'.
+Proof. exact SegStateInherit.reuse_previous_canonical. Qed.
+
+Theorem update_existing_indexed : forall o i o',
+    update_existing o i = Ok o' -> indexed o -> indexed o'.
+Proof. exact SegStateInherit.update_existing_indexed. Qed.
+
+Theorem reuse_previous_indexed : forall po i o',
+    reuse_previous po i = Ok o' -> indexed po -> indexed o'.
+Proof. exact SegStateInherit.reuse_previous_indexed. Qed.
+
+(* whatever encoding a segment uses (metadata absent / inherited list / new
+   list; full, matches-previous, no-data or unlisted objects), the list it
+   produces satisfies the hypotheses of T2 with respect to the same global map *)
+Theorem segment_objects_ok : forall toc metadata prev_objs prev_seg objs props,
+    prev_keys_ok prev_objs -> prev_wf prev_objs -> base_tracked prev_seg prev_objs ->
+    read_segment_objects toc metadata prev_objs prev_seg = Ok (objs, props) ->
+    Forall (obj_ok prev_objs) objs.
+Proof. exact SegStateInherit.read_segment_objects_obj_ok. Qed.
+
+(* one step of the property: under the state invariants, ANY accepted encoding
+   of a segment and its fully explicit re-encoding produce the same ordered
+   object list, unless an object has data without ever having had an index *)
+Theorem inheritance_transparent_step : forall toc metadata prev_objs prev_seg objs props toc',
+    prev_keys_ok prev_objs -> prev_wf prev_objs -> base_tracked prev_seg prev_objs ->
+    read_segment_objects toc metadata prev_objs prev_seg = Ok (objs, props) ->
+    (forall o, In o objs -> so_has_data o = true -> so_dtype o <> None) ->
+    toc_has toc' TOC_NEWLIST = true ->
+    read_segment_objects toc' (Some (explicit_entries objs)) prev_objs prev_seg = Ok (objs, []).
+Proof. exact SegStateInherit.inheritance_transparent_step. Qed.
+
+(* ---- T3: forbidden encodings are rejected ------------------------------------ *)
+
+Theorem forbidden_rejected_first_without_metadata : forall toc prev_objs,
+    read_segment_objects toc None prev_objs None = Err EValue.
+Proof. exact SegStateInherit.forbidden_rejected_first_without_metadata. Qed.
+
+Theorem forbidden_rejected_unseen_match_prev : forall base prev_objs ordered pre mid x es,
+    fold_entries base prev_objs ordered pre = Ok mid ->
+    unseen base prev_objs (e_path x) -> e_idx x = IMatchPrev ->
+    fold_entries base prev_objs ordered (pre ++ x :: es) = Err EValue.
+Proof. exact SegStateInherit.forbidden_rejected_unseen_match_prev_after. Qed.
+
+Theorem forbidden_rejected_unseen_match_prev_never_ok : forall base prev_objs ordered pre x es r,
+    unseen base prev_objs (e_path x) -> e_idx x = IMatchPrev ->
+    fold_entries base prev_objs ordered (pre ++ x :: es) <> Ok r.
+Proof. exact SegStateInherit.forbidden_rejected_unseen_match_prev_never_ok. Qed.
+
+Theorem forbidden_rejected_unseen_match_prev_segment : forall toc prev_objs prev_seg pre mid x es,
+    let base := if toc_has toc TOC_NEWLIST then None else prev_seg in
+    fold_entries base prev_objs (match base with Some l => l | None => [] end) pre = Ok mid ->
+    unseen base prev_objs (e_path x) -> e_idx x = IMatchPrev ->
+    read_segment_objects toc (Some (pre ++ x :: es)) prev_objs prev_seg = Err EValue.
+Proof. exact SegStateInherit.forbidden_rejected_unseen_match_prev_segment. Qed.
+
+Theorem forbidden_rejected_type_change : forall m o n f t,
+    om_dtype m = Some t -> so_dtype o <> Some t ->
+    update_ometa m o n f = Err EValue.
+Proof. exact SegStateInherit.forbidden_rejected_type_change. Qed.
+
+Theorem forbidden_rejected_type_change_segment : forall o r n f prev_objs om m t,
+    alookup (so_path o) om = Some m -> om_dtype m = Some t -> so_dtype o <> Some t ->
+    update_object_metadata (o :: r) n f prev_objs om = Err EValue.
+Proof. exact SegStateInherit.forbidden_rejected_type_change_segment. Qed.
+
+(* ---- T4: the global map after a segment -------------------------------------- *)
+
+Theorem prev_objs_tracks_segments : forall objs n f prev om prev' om',
+    update_object_metadata objs n f prev om = Ok (prev', om') ->
+    NoDup (map so_path objs) ->
+    (forall o, In o objs -> alookup (so_path o) prev' = Some o) /\
+    (forall p, ~ In p (map so_path objs) -> alookup p prev' = alookup p prev).
+Proof. exact SegStateInherit.prev_objs_tracks_segments. Qed.
+
+Theorem state_invariants_initial : prev_keys_ok [] /\ prev_wf [] /\ base_tracked None [].
+Proof. exact SegStateInherit.state_invariants_initial. Qed.
+
+Theorem state_invariants_preserved : forall objs n f prev_objs om prev' om',
+    update_object_metadata objs n f prev_objs om = Ok (prev', om') ->
+    prev_keys_ok prev_objs -> prev_wf prev_objs ->
+    Forall (obj_ok prev_objs) objs -> NoDup (map so_path objs) ->
+    prev_keys_ok prev' /\ prev_wf prev' /\ base_tracked (Some objs) prev'.
+Proof. exact SegStateInherit.state_invariants_preserved. Qed.
+
 Print Assumptions index_cache_transparent.
+Print Assumptions positional_update_is_update_by_path.
+Print Assumptions new_list_update_is_update_by_path.
+Print Assumptions segment_objects_paths.
+Print Assumptions segment_objects_paths_new_list.
+Print Assumptions segment_objects_paths_unique.
+Print Assumptions segment_objects_paths_unique_new_list.
+Print Assumptions explicit_reencoding_same_objects.
+Print Assumptions explicit_reencoding_same_objects_spec.
+Print Assumptions new_object_canonical.
+Print Assumptions update_existing_canonical.
+Print Assumptions reuse_previous_canonical.
+Print Assumptions update_existing_indexed.
+Print Assumptions reuse_previous_indexed.
+Print Assumptions segment_objects_ok.
+Print Assumptions inheritance_transparent_step.
+Print Assumptions forbidden_rejected_first_without_metadata.
+Print Assumptions forbidden_rejected_unseen_match_prev.
+Print Assumptions forbidden_rejected_unseen_match_prev_never_ok.
+Print Assumptions forbidden_rejected_unseen_match_prev_segment.
+Print Assumptions forbidden_rejected_type_change.
+Print Assumptions forbidden_rejected_type_change_segment.
+Print Assumptions prev_objs_tracks_segments.
+Print Assumptions state_invariants_initial.
+Print Assumptions state_invariants_preserved.
+(* concrete instances (Proofs/SegStateInherit.v): hypotheses are satisfiable, and
+   the uniqueness / "has an index" side conditions are not idle *)
+Print Assumptions positional_update_is_update_by_path_instance.
+Print Assumptions stale_index_map_visible_when_listed_twice.
+Print Assumptions new_list_listed_twice.
+Print Assumptions explicit_reencoding_same_objects_instance.
+Print Assumptions match_prev_after_only_no_data.
+Print Assumptions forbidden_rejected_unseen_match_prev_instance.
+Print Assumptions forbidden_rejected_type_change_instance.
+Print Assumptions prev_objs_tracks_segments_instance.
+Print Assumptions inheritance_transparent_step_instance.
